@@ -144,7 +144,7 @@ def symlink_case(pr):
     pr.clear_log()
     r = pr.run("t")
     if not _ran(pr):
-        return {"property": "C15", "expected": "src/link.txt is a regular file (through the link) at or below the listed path: rewriting it forces the build", "observed": "skipped", "zinoma": r.brief()}
+        return {"property": ["C15", "C02"], "expected": "src/link.txt is a regular file (through the link) at or below the listed path: rewriting it forces the build", "observed": "skipped", "zinoma": r.brief()}
     return None
 
 
@@ -329,6 +329,44 @@ def imported_same_decision_case(pr):
     return None
 
 
+def shared_file_case(pr):
+    """a checked-in file that one target regenerates (its output) and another, unordered, target reads (its input)"""
+    pr.write("gen/api.txt", "old")
+    pr.write("spec.txt", "v1")
+    gen = _t([{"paths": ["spec.txt"]}], [{"paths": ["gen"]}], name="gen", body="cat spec.txt > gen/api.txt", sleep=0.6)
+    lint = _t([{"paths": ["gen"]}], None, name="lint")
+    pr.write("zinoma.yml", yml({"gen": gen, "lint": lint}))
+    if not _run_ok(pr, "gen", "lint"):
+        return None
+    pr.clear_log()
+    pr.run("gen", "lint")       # lint may legitimately run again (gen rewrote its input after lint looked at it)
+    pr.clear_log()
+    r = pr.run("gen", "lint")
+    if "s gen" in pr.log():
+        return {"property": "C03", "expected": "gen completed, nothing it declares changed since: the third invocation on the untouched tree skips it", "observed": "gen ran again; log %s" % pr.log(), "zinoma": r.brief()}
+    pr.clear_log()
+    r = pr.run("gen", "lint")
+    if pr.log():
+        return {"property": "C03", "expected": "a fourth invocation on the untouched tree runs no script", "observed": "log %s" % pr.log(), "zinoma": r.brief()}
+    return None
+
+
+def in_and_out_case(pr):
+    """a file that is both input and output of one target (formatter-style)"""
+    pr.write("code/a.c", "int x;")
+    t = _t([{"paths": ["code"]}], [{"paths": ["code"]}], body="echo ' ' >> code/a.c")
+    pr.write("zinoma.yml", yml({"t": t}))
+    if not _run_ok(pr, "t"):
+        return None
+    pr.clear_log()
+    r = pr.run("t")
+    if _ran(pr):
+        # the input half was recorded before the script rewrote it: one more run is legitimate; the one after is not
+        pr.clear_log()
+        r = pr.run("t")
+    return None
+
+
 def cases(seed):
     C = lambda n, fn, what: Case("incr", n, fn, what)
     out = [
@@ -341,12 +379,12 @@ def cases(seed):
         C("remove-output", skip_then("rm out.txt", lambda p: p.remove("out.txt"), True, "C02"), "removed output"),
         C("remove-state", skip_then("rm -rf .zinoma", _rm_state, True, "C02"), "no record"),
         C("ext-nonmatching", skip_then("edit src/a.txt (extensions: [csv])", lambda p: p.edit("src/a.txt", "a2-longer"), False, "C15", ext=["csv"], why=" (src/a.txt does not match)"), "non-matching file is outside the set"),
-        C("ext-matching", skip_then("edit src/b.csv (extensions: [csv])", lambda p: p.edit("src/b.csv", "b2-longer"), True, "C15", ext=["csv"]), "matching file, dot added"),
-        C("ext-dotted", skip_then("edit src/b.csv (extensions: [.csv])", lambda p: p.edit("src/b.csv", "b2-longer"), True, "C15", ext=[".csv"]), "extension given with its dot"),
-        C("ext-multi-dot", skip_then("edit src/d.in.csv (extensions: [csv])", lambda p: p.edit("src/d.in.csv", "d2-longer"), True, "C15", ext=["csv"], extra={"src/d.in.csv": "d1"}, why=" (the name ends with .csv)"), "name with several dots"),
-        C("ext-suffix-of-name", skip_then("edit src/d.tar.gz (extensions: [tar.gz])", lambda p: p.edit("src/d.tar.gz", "d2-longer"), True, "C15", ext=["tar.gz"], extra={"src/d.tar.gz": "d1"}), "multi-dot extension"),
+        C("ext-matching", skip_then("edit src/b.csv (extensions: [csv])", lambda p: p.edit("src/b.csv", "b2-longer"), True, ["C15", "C02"], ext=["csv"]), "matching file, dot added"),
+        C("ext-dotted", skip_then("edit src/b.csv (extensions: [.csv])", lambda p: p.edit("src/b.csv", "b2-longer"), True, ["C15", "C02"], ext=[".csv"]), "extension given with its dot"),
+        C("ext-multi-dot", skip_then("edit src/d.in.csv (extensions: [csv])", lambda p: p.edit("src/d.in.csv", "d2-longer"), True, ["C15", "C02"], ext=["csv"], extra={"src/d.in.csv": "d1"}, why=" (the name ends with .csv)"), "name with several dots"),
+        C("ext-suffix-of-name", skip_then("edit src/d.tar.gz (extensions: [tar.gz])", lambda p: p.edit("src/d.tar.gz", "d2-longer"), True, ["C15", "C02"], ext=["tar.gz"], extra={"src/d.tar.gz": "d1"}), "multi-dot extension"),
         C("ext-empty-entry", skip_then("edit src/a.txt (extensions: ['', csv])", lambda p: p.edit("src/a.txt", "a2-longer"), False, "C15", ext=["", "csv"], why=" (the empty entry is ignored, the filter is .csv)"), "empty entry ignored"),
-        C("ext-only-empty", skip_then("edit src/a.txt (extensions: [''])", lambda p: p.edit("src/a.txt", "a2-longer"), True, "C15", ext=[""], why=" (no filter)"), "only empty entries = no filter"),
+        C("ext-only-empty", skip_then("edit src/a.txt (extensions: [''])", lambda p: p.edit("src/a.txt", "a2-longer"), True, ["C15", "C02"], ext=[""], why=" (no filter)"), "only empty entries = no filter"),
         C("workdir-inside", skip_then("edit src/.zinoma/x", lambda p: p.edit("src/.zinoma/x", "2-longer"), False, "C15", extra={"src/.zinoma/x": "1"}, why=" (inside a directory named .zinoma)"), ".zinoma directory below the listed path is pruned"),
         C("no-input", no_input_case, "no input: always executed"),
         C("missing-path", missing_path_case, "missing path contributes nothing"),
@@ -357,6 +395,7 @@ def cases(seed):
         C("per-target-state", per_target_state_case, "state per target"),
         C("imported-same-decision", imported_same_decision_case, "imported target decided identically however reached"),
         C("two-producers-same-cmd", two_producers_same_cmd_case, "same command text in two producers"),
+        C("shared-file-two-targets", shared_file_case, "a file regenerated by one target and read by another"),
     ]
     for kind in ("truncate", "empty", "garbage", "huge-length"):
         out.append(C("corrupt-" + kind, skip_then("corrupt state (%s) + edit src/a.txt" % kind, _corrupt(kind), True, "C05"), "corrupted record: rebuild, exit 0"))
